@@ -4,6 +4,7 @@ import (
 	"errors"
 	"fmt"
 	"strings"
+	"sync/atomic"
 
 	crypt "github.com/sergeymakinen/go-crypt"
 )
@@ -269,6 +270,68 @@ func corrC07(out string, seed uint64, tier string, replay string) *report {
 			h = r.str(r.intn(10), "$,_ab")
 		}
 		runHist(hist, h, r.str(r.intn(5), "pq$"))
+	}
+	// ---- part 3: registration concurrent with dispatch ----
+	// one goroutine keeps checking hashes of prefix P (and, half of the time, of another prefix); the main goroutine
+	// registers handler i for P and, once RegisterHash has returned, checks a hash of P itself: that call happens
+	// after the registration, so it must reach handler i, whatever the other goroutine was doing in between
+	{
+		crypt.VerifResetRegistry()
+		rounds := 4000
+		if tier == "thorough" {
+			rounds = 60000
+		}
+		var lastCalled int64 = -1
+		mkc := func(id int64) func(string, string) error {
+			return func(h, p string) error {
+				if p == "main" {
+					atomic.StoreInt64(&lastCalled, id)
+				}
+				return nil
+			}
+		}
+		crypt.RegisterHash("$q$", mkc(-2))
+		crypt.RegisterHash("$p$", mkc(-3))
+		stop := make(chan struct{})
+		done := make(chan struct{})
+		go func() {
+			defer close(done)
+			k := 0
+			for {
+				select {
+				case <-stop:
+					return
+				default:
+				}
+				k++
+				crypt.Check("$p$x", "other")
+				if k%2 == 0 {
+					crypt.Check("$q$x", "other")
+				}
+			}
+		}()
+		stale := 0
+		var first map[string]interface{}
+		for i := 0; i < rounds; i++ {
+			crypt.RegisterHash("$p$", mkc(int64(i)))
+			atomic.StoreInt64(&lastCalled, -1)
+			err := crypt.Check("$p$x", "main")
+			if got := atomic.LoadInt64(&lastCalled); got != int64(i) || err != nil {
+				stale++
+				if first == nil {
+					first = map[string]interface{}{"round": i, "handler_reached": got, "error": fmt.Sprint(err)}
+				}
+			}
+			rep.count(fmt.Sprint("conc", i), true)
+		}
+		close(stop)
+		<-done
+		rep.Distribution["concurrent_registration_rounds"] = rounds
+		if stale > 0 {
+			rep.fail(map[string]interface{}{"history": "goroutine B: Check($p$x) / Check($q$x) in a loop; goroutine A, per round i: RegisterHash($p$, handler i); Check($p$x)", "first_bad_round": first, "bad_rounds": stale},
+				"A's Check reaches handler i (its own registration completed before the call)", fmt.Sprintf("%d of %d rounds reached an older handler", stale, rounds),
+				"a Check issued after RegisterHash returned is routed to a handler registered earlier (routing to the latest registration fails under concurrent dispatch)")
+		}
 	}
 	must(cs2.flush())
 	rep.CaseSets = []string{"C07_prefix", "C07_hist"}
